@@ -271,4 +271,55 @@ def importRepaired {V} (zero : V) (labelInt : V → Option Int) (cfg : Cfg) (rec
       | some labels => build zero cfg recs maxIndex (hasZeroFirst recs) labels true   -- F2c: shape = element size
 
 end Svm
+
+/-! ### CSV importers (`csvStringToData` overloads): logic after the reader -/
+namespace Csv
+
+/-- the empty data object `Data<T>()` / `LabeledData<I,L>()` -/
+def emptySet {V} (labels : Labels V) : DataSet V :=
+  { shape := none, lshape := none, batches := [], rows := [], labels := labels }
+
+/-- `csvStringToData(Data<RealVector>&, …)`: rows → batches -/
+def importRows {V} (rows : List (List V)) (maxBatch : Nat) : Outcome V :=
+  match rows with
+  | [] => .ok (emptySet .none)
+  | r0 :: _ =>
+    let dims := r0.length
+    if rows.all (fun r => r.length == dims) then
+      .ok { shape := some dims, lshape := none, batches := optimalBatchSizes rows.length maxBatch,
+            rows := rows.map Row.dense, labels := .none }
+    else .error       -- "Vectors are required to have same size"
+
+/-- `csvStringToData(LabeledData<RealVector, unsigned int>&, …)` -/
+def importClass {V} (pts : List (Int × List V)) (maxBatch : Nat) : Outcome V :=
+  match pts with
+  | [] => .ok (emptySet (.cls []))
+  | p0 :: _ =>
+    match classLabels (pts.map fun p => some p.1) with
+    | none => .error
+    | some labels =>
+      let dims := p0.2.length
+      if pts.all (fun p => p.2.length == dims) then
+        .ok { shape := some dims, lshape := none, batches := optimalBatchSizes pts.length maxBatch,
+              rows := pts.map (fun p => Row.dense p.2), labels := .cls labels }
+      else .error
+
+/-- `csvStringToData(LabeledData<RealVector, RealVector>&, …, lp, numberOfOutputs, …)` -/
+def importRegr {V} (rows : List (List V)) (labelFirst : Bool) (numOut maxBatch : Nat) : Outcome V :=
+  match rows with
+  | [] => .ok (emptySet (.reg []))
+  | r0 :: _ =>
+    if ¬ (r0.length > numOut) then .error    -- "Files must have more columns than requested number of outputs"
+    else
+      let dims := r0.length
+      let numIn := dims - numOut
+      let inStart := if labelFirst then numOut else 0
+      let outStart := if labelFirst then 0 else numIn
+      if rows.all (fun r => r.length == dims) then
+        .ok { shape := some numIn, lshape := some numOut, batches := optimalBatchSizes rows.length maxBatch,
+              rows := rows.map (fun r => Row.dense ((r.drop inStart).take numIn)),
+              labels := .reg (rows.map fun r => (r.drop outStart).take numOut) }
+      else .error
+
+end Csv
 end SharkVerif.Import
